@@ -103,6 +103,10 @@ func (o *scalarOperator) Next(ctx context.Context) ([]model.StepVector, error) {
 		return nil, err
 	}
 	if in == nil {
+		// Evaluate the scalar side to its end: an error in it fails the query.
+		if err := model.Drain(ctx, o.scalar, nil); err != nil {
+			return nil, err
+		}
 		return nil, nil
 	}
 	o.seriesOnce.Do(func() { err = o.loadSeries(ctx) })
